@@ -1611,6 +1611,12 @@ impl Tree {
 		// reads of the new files are answered from the old files' cached blocks.
 		self.core.inner.opts.block_cache.clear();
 
+		// The value log keeps a writer, read handles and a file table for the files
+		// that the restore has just replaced.
+		if let Some(ref vlog) = self.core.inner.vlog {
+			vlog.reload_after_restore()?;
+		}
+
 		// Create a new LevelManifest from the current path
 		let new_levels = LevelManifest::new(Arc::clone(&self.core.inner.opts))?;
 
